@@ -67,12 +67,17 @@ def stage_numpy(d, k, shape, rate, bs, il, xl, z0, dz_ms, extra_arrays=0, seed=0
     return p, T
 
 
-def stage_segy(d, k, shape, rate, bs, mode, fmt=5, il=(1, 1), xl=(1, 1), seed=0, reduce_iops=False):
+def stage_segy(d, k, shape, rate, bs, mode, fmt=5, il=(1, 1), xl=(1, 1), seed=0, reduce_iops=False, window=None, sorting='il'):
     cube = inputs.cube(shape, seed + k)
     sgy = os.path.join(d, f's{k}.sgy')
-    inputs.write_segy(sgy, cube, il[0] + il[1] * np.arange(shape[0]), xl[0] + xl[1] * np.arange(shape[1]), np.arange(shape[2]) * 2.0, fmt=fmt)
+    inputs.write_segy(sgy, cube, il[0] + il[1] * np.arange(shape[0]), xl[0] + xl[1] * np.arange(shape[1]), np.arange(shape[2]) * 2.0, fmt=fmt,
+                      sorting=sorting)
     p = os.path.join(d, f's{k}.sgz')
-    writers.segy_to_sgz(sgy, p, writers.rate_arg(rate), bs, header_detection=mode, reduce_iops=reduce_iops)
+    writers.segy_to_sgz(sgy, p, writers.rate_arg(rate), bs, header_detection=mode, reduce_iops=reduce_iops, window=window)
+    if window is not None:      # an ordinal window <<a, b, c, d>>: the file of the sub-cube
+        a, b, c, dd = window
+        shape = (b - a, dd - c, shape[2])
+        il, xl = (il[0] + a * il[1], il[1]), (xl[0] + c * xl[1], xl[1])
     T = truth(3, shape, resolved_blockshape(rate, bs or (4, 4, -1), 3), rate, shape[0] * shape[1], il, xl, 0, 2000, source_format=0)
     return p, T
 
@@ -205,6 +210,11 @@ def chains(run):
         C.append((f'segy {mode}', [segy((8, 16, 20), 16, None, mode)]))
         C.append((f'segy {mode} 5x7', [segy((5, 7, 20), 8, (4, 4, -1), mode, il=(3, 2), xl=(9, -1) if False else (9, 4))]))
     C.append(('segy ibm iops', [segy((6, 5, 33), 16, None, 'heuristic', fmt=1, reduce_iops=True)]))
+    # ordinal windows (different lower bounds on the two axes), a crossline-sorted source
+    C.append(('segy window (1,5,2,8)', [segy((8, 9, 20), 16, None, 'heuristic', il=(10, 2), xl=(100, 5), window=(1, 5, 2, 8))]))
+    C.append(('segy window (0,3,4,9) thorough iops', [segy((8, 9, 20), 8, (4, 4, -1), 'thorough', il=(10, 2), xl=(100, 5), window=(0, 3, 4, 9), reduce_iops=True)]))
+    C.append(('segy window (3,8,0,2) -> crop', [segy((8, 9, 64), 32, (4, 4, -1), 'heuristic', il=(-10, 3), xl=(7, 1), window=(3, 8, 0, 2)), crop(((0, 4), None, None))]))
+    C.append(('segy crossline-sorted', [segy((6, 7, 20), 16, None, 'thorough', il=(10, 2), xl=(100, 5), sorting='xl')]))
     for shape, rate, bs in (((128, 20), 8, (1, 4, -1)), ((129, 9), 4, None), ((9, 70), 16, (1, 16, -1)), ((2, 2), 8, (1, 4, -1))):
         C.append((f'2d{shape}', [lambda d, k, pp, pT, shape=shape, rate=rate, bs=bs: stage_2d(d, k, shape, rate, bs, s)]))
     for grid, holes in (((4, 5), {(0, 0)}), ((8, 16), {(7, 15), (3, 3)}), ((3, 3), {(1, 1), (0, 2)})):
